@@ -12,7 +12,10 @@ EXPLANATION = (
     'user function exactly once on the payload and re-wraps the result as Effect while the Event arm is re-wrapped untouched (mirror '
     'image for map_event); R04.b in `then` the call that hosts `other` is dominated by the Ready edge of the await of the future '
     'hosting `self`; R04.c in and/all/then/from_iter every sub-command captured by the task closure flows into host(..), each host '
-    'call forwards into the parent\'s own effect and event senders, and no Command value is dropped outside the exception table. '
+    'call forwards into the parent\'s own effect and event senders, and no Command value is dropped outside the exception table; R04.d-f builder '
+    'chains contain no lossy adaptor and no concurrency limit, then_send emits one event per output, each stage feeds the item once to the '
+    'user callback; R04.g crux-provided futures keep the poll\'s waker; R04.h done / event / notify_shell / request_from_shell / '
+    'stream_from_shell make exactly the one context call they stand for, on every path, with their own argument. '
     'Equivalence to the reference semantics, the algebraic laws and the behaviour of then_request/then_stream under every resolution '
     'order quantify over expressions x schedules and are NOT decided.')
 
@@ -24,6 +27,8 @@ POLL = 'core::future::future::Future::poll'
 LOSSY_ADAPTORS = {'filter', 'filter_map', 'skip', 'take', 'step_by', 'take_while', 'skip_while', 'take_until', 'zip', 'chunks', 'ready_chunks',
                   'peekable', 'cycle', 'rev', 'scan', 'fuse_once', 'dedup', 'buffered', 'buffer_unordered', 'try_filter', 'nth', 'last',
                   'select_next_some', 'abortable', 'catch_unwind', 'map_while', 'enumerate'}
+# adaptor -> index of its limit argument (impl Into<Option<usize>>)
+LIMITED_ADAPTORS = {'flatten_unordered': 1, 'for_each_concurrent': 1, 'try_for_each_concurrent': 1, 'flat_map_unordered': 1}
 USER_CALLS = ['core::ops::function::Fn::call', 'core::ops::function::FnMut::call_mut', 'core::ops::function::FnOnce::call_once']
 
 
@@ -40,6 +45,16 @@ def check_builders(rep, core):
             if tr in ('futures_util::stream::stream::StreamExt', 'futures_util::future::future::FutureExt', 'core::iter::traits::iterator::Iterator',
                       'futures_util::stream::try_stream::TryStreamExt', 'futures_util::sink::SinkExt') and last_seg(t['callee']) in LOSSY_ADAPTORS:
                 bad.append((bb, norm(t['callee'])))
+        # adaptors that take a concurrency limit must be given None: with a bound, once that many inner streams are open the outer
+        # stream is no longer polled and its later items never reach the next stage
+        for bb, t in f.calls():
+            if last_seg(t.get('callee') or '') in LIMITED_ADAPTORS and norm(t.get('ctrait') or '').startswith('futures_util::'):
+                lim = origins(f, t['args'][LIMITED_ADAPTORS[last_seg(t['callee'])]])
+                unbounded = bool(lim) and all(o.kind == 'agg' and o.stmt['rv'].get('adt') == 'core::option::Option' and o.stmt['rv'].get('variant') == 'None'
+                                              for o in lim)
+                rep.expect('R04.d', unbounded, '%s|%s-unbounded' % (f.kpath, last_seg(t['callee'])), 'the concurrency limit is None',
+                           '%s gives %s a concurrency limit: once that many inner streams are open the outer stream is not polled and its '
+                           'later outputs never reach the next stage' % (f.where(bb), norm(t['callee'])))
         if bad:
             for bb, c in bad:
                 rep.bad('R04.d', '%s|%s' % (f.kpath, last_seg(c)), '%s puts the adaptor %s into a command chain: items can be dropped, duplicated, '
@@ -288,5 +303,10 @@ def check(ctx, rep):
     rep.rule('R04.g', 'every future crux provides to tasks (JoinHandle, shell requests and streams, timers) keeps the current poll\'s waker when it stays Pending', floor=5)
     time = rep_ctx_time(core)
     c05.check_pending_wakers(rep, 'R04.g', core, time)
+    # R04.h: done / event / notify / request / stream primitives produce exactly their single output
+    from rules.props import prims
+    rep.rule('R04.h', 'done / event / notify_shell / request_from_shell / stream_from_shell make exactly the one context call they stand for, '
+             'on every path of their task body, with their own argument', floor=9)
+    prims.check_primitives(rep, 'R04.h', core)
     rep.assume('futures StreamExt::forward/map and CommandSink deliver every item exactly once in order (checked for CommandSink in C01)')
     rep.assume('NOT DECIDED: reference semantics, algebraic laws, then_request/then_stream chaining under every resolution order')
